@@ -5028,7 +5028,13 @@ class State:
         )
         self.completion_betting_or_raising_count += 1
 
-        if self.stacks[player_index]:
+        if (
+                self.stacks[player_index]
+                or (
+                    completion_betting_or_raising_amount
+                    >= self.completion_betting_or_raising_amount
+                )
+        ):
             (
                 self
                 .consecutive_all_in_completion_betting_or_raising_amounts
